@@ -123,6 +123,9 @@ def universe(tier):
     keys = _pairs(KEYS)
     vals = list(atoms)
     d1 = seqs(atoms, 2) + seqs(small, 3) + maps(keys, small, 2) + maps(keys[:3], atoms, 1) + dcs(small)
+    # dicts spelled like the dataclasses of the grammar (their field names as keys, in field order)
+    fk = _pairs(["'x'", "'y'", "'u'"])
+    d1 += maps(fk[:2], small, 2) + maps(fk[2:], small, 1)
     vals += d1
     # depth 2: containers of (tiny atoms + small depth-1 containers)
     inner = tiny + seqs(tiny, 2, kinds=("list",)) + seqs(tiny[:2], 1, kinds=("tuple",)) + maps(keys[:2], tiny[:3], 1) + dcs(tiny[:2])
